@@ -160,6 +160,8 @@ def _q_total_depth(p, rows):
     """The view's value for that storm (at most one row: storm_start_epoch is the storm's key)."""
     ensures(len(rows) <= 1)
     ensures(forall(0, len(rows), lambda i: rows[i][0] == uf_real("total_depth_of", p.storm_start_epoch)))
+    # Classified(db): a storm is a run of steps with rainfall above the positive threshold (C03): its depth is positive
+    ensures(forall(0, len(rows), lambda i: rows[i][0] > 0))
 
 
 @sql("""SELECT (grid_interval_mm) FROM zeta_grid""", rows="tuple[real]")
